@@ -162,7 +162,7 @@ PROPS = {
     'C12': dict(fn=mk(['R12.', 'R15.2', 'R15.1', 'R11.d', 'R11.e', 'R11.h', 'R06.3', 'R08.1']), explanation='provenance (origin terms) of every argument of transition, transition_cost, relax, merge, for_each_in_domain, next_variable; who may call _branch_on; depth counter; merged slice has at least two members; clone fidelity of SubProblem (the fringe hands a clone back) and the impact query of the pooled diagram'),
     'C13': dict(technique='static rules over rustc MIR: must-pass-through (squash before expansion), symbolic vector-length accounting (truncate / push per path), lower-bound interval domain on the width combinators', fn=mk(['R13.', 'R01.2'], lambda r: r['rule'].startswith('R13') or 'max_width' in r['instance']), explanation='squash executed on every expanded layer vector; symbolic length <= max_width at every exit of _restrict/_relax; width guards'),
     'C14': dict(fn=mk(['R14.', 'R02.1', 'R02.2'] + C01_RULES, lambda r: _c01_keep_both(r)), explanation='set_primal strictness table, both fields under one guard; no prune site (pop, enqueue, rough bound, cache filter) discards a node with ub > best_lb; incumbent replaced only on improvement; with a primal of minus infinity the statement is plain optimality, so every optimality rule of C01 / C03 (both solvers) is a necessary condition as well'),
-    'C15': dict(fn=mk(['R15.', 'R07.5', 'R08.', 'R12.', 'R06.1', 'R06.2', 'R06.3', 'R09.', 'R02.4', 'R02.5', 'R02.6', 'R13.a', 'R13.b', 'R01.6', 'R01.7'], lambda r: r['rule'].startswith('R15') or r['rule'] == 'R09.6' or r['instance'].startswith('Pooled')), explanation='Pooled: un-impacted nodes are neither expanded nor removed from the pool; depth assigned when a node leaves the pool and at finalisation; a layer is recorded only when non-empty; progress rule (root never handed out) shared with C08; plus every diagram rule instantiated on Pooled (cut-set, local bounds, thresholds, callback protocol, reset, squash)'),
+    'C15': dict(fn=mk(['R11.d', 'R03.pop', 'R15.', 'R07.5', 'R08.', 'R12.', 'R06.1', 'R06.2', 'R06.3', 'R09.', 'R02.4', 'R02.5', 'R02.6', 'R13.a', 'R13.b', 'R01.6', 'R01.7'], lambda r: r['rule'].startswith('R15') or r['rule'] in ('R09.6', 'R09.7', 'R11.d', 'R03.pop') or r['instance'].startswith('Pooled')), explanation='Pooled: un-impacted nodes are neither expanded nor removed from the pool; depth assigned when a node leaves the pool and at finalisation; a layer is recorded only when non-empty; progress rule (root never handed out) shared with C08; plus every diagram rule instantiated on Pooled (cut-set, local bounds, thresholds, callback protocol, reset, squash)'),
     'C17': dict(fn=mk(['R17', 'R02.3', 'R05.3', 'R05.4', 'R19.6'] + C01_RULES, lambda r: r['rule'].startswith('R17') or r['rule'] in ('R05.3', 'R05.4', 'R19.6') or (r['rule'].startswith(tuple(C01_RULES)) and _c01_keep_both(r)) or 'bound()' in r['instance'] or 'complete-sets-ub' in r['instance']), level='proof', explanation='abstract interpretation of the MIR of Solver::gap over a partition of all (lb <= ub) into sign/order cells; in each cell every comparison between the symbolic expressions (|lb|, |ub|, max, min, |ub-lb|) is decided, so all feasible paths are followed; obligations per cell: not NaN / no panic, >= 0, = 1 when a bound is infinite, = 0 iff lb = ub, <= 1 when the bounds have the same sign',
                 obligations=lambda results: len(results), level_note='Trusted: rustc MIR construction, the fact extractor, the transfer functions of absint_gap.py. The gap function itself is decided completely; the additional structural rules (accessors return the bound fields, completion sets ub := lb in both solvers, no completion after an abort, the bound stored by a parallel abort covers everything that is left; and, for the reading "zero only at optimality" of the title, the optimality rules of C01 / C03: a run that ends with lb = ub on a wrong value reports gap 0) are the necessary conditions under which the bounds fed to gap() are the solver\'s real bounds.', checker_cmd='./check C17 quick',
                 trusted_base=['rustc MIR construction', 'engine/factsdrv', 'absint_gap.py transfer functions (int->float conversion is monotone, exact at 0 and keeps positive values positive and finite; x/y with 1 <= x, y <= 2^64 does not underflow; IEEE division)'],
